@@ -89,11 +89,11 @@ func runC15(ctx *Ctx) {
 	}
 
 	// 3. rapid arms
-	ctx.CheckRapid("size64", ctx.N(200000, 3000000)/ctx.NShards+1, func(rt *rapid.T) *Case {
+	ctx.CheckRapid("size64", ctx.N(1000000, 8000000)/ctx.NShards+1, func(rt *rapid.T) *Case {
 		return sovCase(modelU64(rt))
 	}, func(c *Case) error { return checkC15(ctx, c) })
 
-	ctx.CheckRapid("encode", ctx.N(60000, 600000)/ctx.NShards+1, func(rt *rapid.T) *Case {
+	ctx.CheckRapid("encode", ctx.N(300000, 2000000)/ctx.NShards+1, func(rt *rapid.T) *Case {
 		v := modelU64(rt)
 		sz := protowire.SizeVarint(v)
 		blen := rapid.IntRange(sz, sz+12).Draw(rt, "buflen")
@@ -101,7 +101,7 @@ func runC15(ctx *Ctx) {
 		return &Case{Sub: "encode", Args: map[string]string{"v": strconv.FormatUint(v, 10), "buflen": strconv.Itoa(blen), "offset": strconv.Itoa(off)}}
 	}, func(c *Case) error { return checkC15(ctx, c) })
 
-	ctx.CheckRapid("skip", ctx.N(120000, 1500000)/ctx.NShards+1, func(rt *rapid.T) *Case {
+	ctx.CheckRapid("skip", ctx.N(800000, 6000000)/ctx.NShards+1, func(rt *rapid.T) *Case {
 		cfg := &model.StreamCfg{Labels: map[string]int{}}
 		var b []byte
 		switch rapid.IntRange(0, 7).Draw(rt, "class") {
